@@ -189,14 +189,16 @@ def encode_sequence(content, error=None, version=None, mode=None, mask=None,
     if num_symbols > 16:
         raise DataOverflowError(f'The data does not fit into Structured Append version {version}')
     chunks = divide_into_chunks(content, num_symbols)
+    chunk_segments = [one_item_segments(chunk, mode) for chunk in chunks]
     if symbol_count is not None:
-        segments = one_item_segments(max(chunks, key=len), mode)
-        version = find_version(segments, error, eci=eci, micro=False, is_sa=True)
+        # The version which is required by the chunk with the most bits
+        version = max(find_version(segs, error, eci=eci, micro=False, is_sa=True)
+                      for segs in chunk_segments)
     sa_info = partial(_StructuredAppendInfo, total=len(chunks) - 1,
                       parity=sa_parity_data)
-    return [_encode(one_item_segments(chunk, mode), error=error, version=version,
+    return [_encode(segs, error=error, version=version,
                     mask=mask, eci=eci, boost_error=boost_error,
-                    sa_info=sa_info(i)) for i, chunk in enumerate(chunks)]
+                    sa_info=sa_info(i)) for i, segs in enumerate(chunk_segments)]
 
 
 def _encode(segments, error, version, mask, eci, boost_error, sa_info=None):
